@@ -234,6 +234,13 @@ Section PJoinU.
     assert (x = v) by (eapply (pinv_agree U l o); eauto using (pheads_in_entries_o U o Io)). now subst.
   Qed.
 
+  (* the heads of a source satisfying [pinv] are entries of the merged log: looking them up changes nothing *)
+  Lemma pown_heads_o : own_heads jents (l_heads o) = l_heads o.
+  Proof.
+    apply own_heads_id; [apply (pi_heads_nodup _ _ Io)|].
+    intros k v H. apply In_oget; [apply (proj1 pj_ents_spec)|]. now apply pheads_o_in_j.
+  Qed.
+
   Lemma pj_heads_spec :
     NoDup (okeys jheads) /\
     forall k e, In (k, e) jheads <-> In (k, e) jents /\ ~ named_in (oslice jents) k.
@@ -366,10 +373,74 @@ Proof.
   destruct (N.eqb_spec (l_id l) (l_id o)) as [Hid|Hid]; cbn [negb]; [|intros H; injection H as <- _; exact Il].
   destruct (difference (l_entries o) (oslice (l_heads o)) l) as [ni|] eqn:D; [|intros H; injection H as <- _; exact Il].
   destruct (forallb (entry_ok l) (oslice ni)); cbn [negb]; [|intros H; injection H as <- _; exact Il].
+  fold_j_ents l ni. rewrite (pown_heads_o U l o UO Il Io Hid ni D).
   destruct (size <? 0).
   - intros H. injection H as <- _. exact (pinv_join_unbounded U l o UO Il Io Hid ni D).
   - match goal with |- context [values ?x] => destruct (values x) as [vals|] eqn:V end;
       [|intros H; injection H as <- _; exact Il].
     intros H. injection H as <- _.
     exact (pinv_join_bounded U l o UO Il Io Hid ni D size vals V).
+Qed.
+
+(* ---- the heads of a merge are the log's own entries, WHATEVER the other log presents as heads ----
+   No assumption on [l_heads o] (forged objects, entries of other logs, unknown hashes), none on
+   closure or provenance of [o]'s entries beyond their being stored under their own hashes. *)
+Lemma In_oset_sound (m : omap) k0 v0 k v : In (k, v) (oset m k0 v0) -> (k = k0 /\ v = v0) \/ In (k, v) m.
+Proof.
+  induction m as [|[k2 v2] m IH]; cbn [oset].
+  - intros [H|[]]. injection H as <- <-. auto.
+  - destruct (N.eqb_spec k0 k2).
+    + intros [H|H]; [injection H as <- <-; auto|right; now right].
+    + intros [H|H]; [right; now left|]. destruct (IH H) as [?|?]; auto. right. now right.
+Qed.
+
+Lemma fold_pairs_sound (ps : omap) : forall m k v,
+  In (k, v) (fold_left (fun m kv => oset m (fst kv) (snd kv)) ps m) -> In (k, v) m \/ In (k, v) ps.
+Proof.
+  induction ps as [|[k0 v0] ps IH]; intros m k v H; cbn [fold_left fst snd] in H; [auto|].
+  destruct (IH _ _ _ H) as [Hm|Hp]; [|right; now right].
+  destruct (In_oset_sound _ _ _ _ _ Hm) as [[-> ->]|?]; [right; now left|auto].
+Qed.
+
+Theorem join_heads_are_own_entries U l o size l' :
+  pinv U l -> well_keyed (l_entries o) -> size < 0 ->
+  join l o false size = (l', Ok tt) ->
+  forall k v, In (k, v) (l_heads l') -> In (k, v) (l_entries l').
+Proof.
+  intros Il WKo Hs. unfold join, join_reads.
+  destruct (N.eqb_spec (l_id l) (l_id o)) as [Hid|Hid]; cbn [negb];
+    [|intros H; injection H as <-; intros k v Hh; now apply (pi_heads _ _ Il) in Hh].
+  destruct (difference (l_entries o) (oslice (l_heads o)) l) as [ni|] eqn:D; [|discriminate].
+  destruct (forallb (entry_ok l) (oslice ni)); cbn [negb]; [|discriminate].
+  assert (E : size <? 0 = true) by (apply Z.ltb_lt; lia). rewrite E.
+  intros H. injection H as <-. cbn [l_heads l_entries].
+  (* the new items are stored under their own hashes, none of which the log knew *)
+  assert (NI : NoDup (okeys ni) /\ forall k v, In (k, v) ni -> e_hash v = k /\ ~ In k (okeys (l_entries l))).
+  { unfold difference in D. destruct (_ || _); [injection D as <-; split; [constructor|intros k v []]|].
+    apply diff_loop_spec in D. destruct D as [A B]. split; [exact A|].
+    intros k v Hin. apply B in Hin. destruct Hin as [_ [G [O _]]]. split; [|now apply ohas_false].
+    apply oget_In in G. now apply WKo. }
+  destruct NI as [NIn NIs].
+  assert (WKn : well_keyed ni) by (intros k v Hin; now apply NIs).
+  set (ents := fold_left (fun m e => oset m (e_hash e) e) (oslice ni) (l_entries l)).
+  assert (ES : NoDup (okeys ents) /\ forall k v, In (k, v) ents <-> In (k, v) (l_entries l) \/ In (k, v) ni).
+  { unfold ents. rewrite fold_entries_as_pairs, (oslice_pairs _ WKn).
+    destruct (fold_oset_pairs ni (l_entries l) (pi_nodup _ _ Il)) as [A B].
+    - intros k v1 v2 H1 H2. rewrite in_app_iff in H1, H2. destruct H1 as [H1|H1], H2 as [H2|H2].
+      + exact (NoDup_functional _ (pi_nodup _ _ Il) k v1 v2 H1 H2).
+      + exfalso. apply (proj2 (NIs _ _ H2)). apply In_okeys. eauto.
+      + exfalso. apply (proj2 (NIs _ _ H1)). apply In_okeys. eauto.
+      + exact (NoDup_functional _ NIn k v1 v2 H1 H2).
+    - split; [exact A|]. intros k v. rewrite B, in_app_iff. tauto. }
+  destruct ES as [EN ES].
+  assert (WKe : well_keyed ents).
+  { intros k v Hin. apply ES in Hin. destruct Hin as [Hin|Hin]; [now apply (pi_in_U _ _ Il) in Hin|now apply NIs]. }
+  intros k v Hh. unfold from_opt_entries in Hh. rewrite from_opt_filter in Hh.
+  apply from_entries_In in Hh. destruct Hh as [Hv Hk]. apply filter_In in Hv. destruct Hv as [Hv _].
+  apply find_heads_In in Hv. destruct Hv as [Hv _]. apply In_oslice in Hv. destruct Hv as [k' Hv].
+  unfold omerge in Hv. apply fold_pairs_sound in Hv. destruct Hv as [Hv|Hv].
+  - apply fold_pairs_sound in Hv. destruct Hv as [[]|Hv].
+    apply (pi_heads _ _ Il) in Hv. destruct Hv as [Hv _].
+    pose proof (proj2 (pi_in_U _ _ Il _ _ Hv)) as Hk'. rewrite Hk in Hk'. subst k'. apply ES. now left.
+  - apply own_heads_In in Hv. apply oget_In in Hv. pose proof (WKe _ _ Hv) as Hk'. rewrite Hk in Hk'. now subst k'.
 Qed.
